@@ -84,6 +84,15 @@ def check_case(case):
     classes += [regime, "family." + fam]
     if fam == "plastic" and call.get("plastic") != inelastic:
         classes.append("regime.unexpected")
+    if fam != "elastic":
+        # the flow direction is singular at seq = 0 and a perturbation h moves the stress by 2 mu h ~ 1e-6 young:
+        # the response is only differentiable (and the generated guards inactive) well away from it
+        young = call["mat"]["young"]
+        lam, mu = bt.lame(young, call["mat"]["nu"])
+        e0, de = np.array(call["eel0"]), np.array(call["deto"])
+        seqs = [bt.seq_of(ref["sig"]), bt.seq_of(bt.hooke(lam, mu, e0 + prog.get("theta", 1.0) * de))]
+        if min(seqs) < 5e-5 * young:
+            raise Reject()
     scale = max(amax(call["deto"]), amax(call["eel0"]), 1e-4)
     h = H_REL * (1 + scale / 1e-3)
     fd1 = finite_difference(lib, call, h)
